@@ -89,7 +89,8 @@ def gen_analyze(rng):
     # an open section is analysed with the forward direction given (which end is open is part of the request)
     return {"k": "c10.analyze", "closed": spec["open_end"] is None, "pts": pts, "tol": 1e-6 * chord, "core_tol": 1e-4 * chord,
             "orient": fwd if spec["open_end"] else rng.choice(["tmax", fwd]), "face": rng.choice(["detect", up]),
-            "leading": lead, "trailing": trail, "spec": spec, "timeout_ms": 20000}
+            "leading": lead, "trailing": trail, "spec": spec, "timeout_ms": 20000,
+            "gauges": [["camber", 0.3 * chord], ["camber", -0.3 * chord], ["camber", 0.5 * chord], ["radius", 0.2 * chord], ["radius", -0.2 * chord], ["radius", 0.45 * chord], ["radius", -0.45 * chord]]}
 
 
 def gen_oriented(rng):
@@ -248,6 +249,55 @@ def oracle(c, r):
         yield ("tmax-value", what + ": maximum thickness %r, law %r" % (2 * r["tmax"]["r"], tm))
     if r["thk_max"] is not None and abs(abs(r["thk_max"]) - 2 * r["tmax"]["r"]) > 0.02 * tm + 5 * tol:
         yield ("tmax-gauge", what + ": get_thickness_max %r vs largest inscribed diameter %r" % (r["thk_max"], 2 * r["tmax"]["r"]))
+    # gauge thicknesses: both gauge points on the section (one per face), a radius gauge at that radius from the leading
+    # (positive) or trailing (negative) edge point, an on-camber gauge across the camber point at that length and, where the
+    # radius law is flat, equal to the law's thickness there
+    for (kind, x), gz in zip(c.get("gauges", []), r.get("gauges", [])):
+        gw = what + ": get_thickness(%s(%r))" % ("OnCamber" if kind == "camber" else "Radius", x)
+        if gz.get("panic"):
+            yield ("gauge-panic", gw + " panicked")
+            continue
+        if gz.get("err"):
+            if r["upper"] is not None and r["lower"] is not None and (kind == "camber" or (r["le"] if x > 0 else r["te"]) is not None):
+                yield ("gauge-failed", gw + " failed (%s) although both faces and the edge point exist" % gz["err"])
+            continue
+        a, b = gz["a"], gz["b"]
+        if abs(abs(gz["value"]) - math.dist(a, b)) > 1e-9 * chord:
+            yield ("gauge-value", gw + " reports %r for points %r apart" % (gz["value"], math.dist(a, b)))
+        if max(dist_poly(a, sec), dist_poly(b, sec)) > 1e-6 * chord:
+            yield ("gauge-on-section", gw + ": gauge points %r, %r are %r, %r from the section" % (a, b, dist_poly(a, sec), dist_poly(b, sec)))
+            continue
+        if r["upper"] is not None and r["lower"] is not None and len(r["upper"]["points"]) > 1 and len(r["lower"]["points"]) > 1:
+            if dist_poly(b, r["upper"]["points"]) > 1e-6 * chord or dist_poly(a, r["lower"]["points"]) > 1e-6 * chord:
+                yield ("gauge-faces", gw + ": the gauge points are not (lower, upper): %r is %r from the lower face, %r is %r from the upper face" % (
+                    a, dist_poly(a, r["lower"]["points"]), b, dist_poly(b, r["upper"]["points"])))
+        if kind == "radius":
+            e = r["le"] if x > 0 else r["te"]
+            if e is not None:
+                for q in (a, b):
+                    if abs(math.dist(q, e["p"]) - abs(x)) > 1e-6 * chord:
+                        yield ("gauge-radius", gw + ": gauge point %r is %r from the %s edge point %r" % (q, math.dist(q, e["p"]), "leading" if x > 0 else "trailing", e["p"]))
+                        break
+        else:
+            cam = r["camber"]
+            ln = x if x >= 0 else r["camber_length"] + x
+            acc, cp = 0.0, None
+            for u, v in zip(cam, cam[1:]):
+                d = math.dist(u, v)
+                if acc + d >= ln and d > 0:
+                    f = (ln - acc) / d
+                    cp = [u[0] + f * (v[0] - u[0]), u[1] + f * (v[1] - u[1])]
+                    break
+                acc += d
+            if cp is not None and seg_dist(cp, a, b) > 1e-6 * chord:
+                yield ("gauge-camber-point", gw + ": the gauge line %r - %r passes %r from the camber point %r at that length" % (a, b, seg_dist(cp, a, b), cp))
+            elif cp is not None and inc:
+                px, py = cp[0] - tx, cp[1] - ty
+                gx = ca * px + sa * py
+                h = 1e-4 * chord
+                if 0.15 * chord < gx < 0.85 * chord and abs(law["r"](gx + h) - law["r"](gx - h)) / (2 * h) < 0.1:
+                    if abs(math.dist(a, b) - 2 * law["r"](gx)) > 0.05 * tm + 5 * tol:
+                        yield ("gauge-recovered", gw + ": thickness %r at chord position %r, radius law gives %r" % (math.dist(a, b), gx, 2 * law["r"](gx)))
     # 4. edges on the section at the ends of the camber curve
     cam = r["camber"]
     for nm, e, end in (("leading", r["le"], cam[0]), ("trailing", r["te"], cam[-1])):
